@@ -273,28 +273,66 @@ example :
 /-! ## 6. subscriber mode -/
 
 /-- While `Conn.pubsub > 0`, a request (outside MULTI, right number of arguments) for a command other than
-(P)SUBSCRIBE / (P)UNSUBSCRIBE / PING / QUIT is answered with the fixed error — unless converting its arguments
-(`Signature.apply`) already fails or short-cuts — and the body does not run: the state is the one after the
-clean-up and clock refresh that precede every known command, with the lazy expiry of the looked-up keys in the selected
-database, plus the reply. -/
+(P)SUBSCRIBE / (P)UNSUBSCRIBE / PING / QUIT is answered with the fixed error, and neither the conversion of the
+arguments (`Signature.apply`) nor the body runs: the state is the one after the clean-up and clock refresh that
+precede every known command, plus the reply. -/
 theorem subscriber_mode_refuses (mode : Mode) (c : Nat) (nameB : Bytes) (args : List Bytes) (s : Sys) (sig : Sig)
     (hsig : lookupSig nameB = some sig) (har : sig.checkArity args.length = true) (htx : (s.conn c).tx = none)
     (hps : (s.conn c).pubsub > 0) (hna : sig.name ∉ SigTable.pubsubAllowed) :
     processCommand mode c (nameB :: args) s =
-      ((), finish c (((prep s).setDbS ((prep s).conn c).db (sig.apply args ((prep s).dbAt ((prep s).conn c).db)).1).emitS c
-        (gatedReply (sig.apply args ((prep s).dbAt ((prep s).conn c).db)).2))) :=
+      ((), finish c ((prep s).emitS c (.err (strBytes Msgs.BAD_COMMAND_IN_PUBSUB_MSG)))) :=
   process_gated mode c nameB args s sig hsig har htx hps hna
 
-/-- … and changes nothing else: tables, connection records and all other databases are those after the clean-up -/
+/-- … and changes nothing else: the final state is literally the state after the clean-up and the clock refresh plus
+the reply; in particular the whole server record — tables, connection records, ALL databases (no lazy expiry in the
+selected one either) — is the one after the clean-up -/
 theorem subscriber_mode_changes_nothing (mode : Mode) (c : Nat) (nameB : Bytes) (args : List Bytes) (s : Sys) (sig : Sig)
     (hsig : lookupSig nameB = some sig) (har : sig.checkArity args.length = true) (htx : (s.conn c).tx = none)
     (hps : (s.conn c).pubsub > 0) (hna : sig.name ∉ SigTable.pubsubAllowed) (hcr : s.crashed = none) :
     let s' := (processCommand mode c (nameB :: args) s).2
-    s'.srv.subs = (prep s).srv.subs ∧ s'.srv.psubs = (prep s).srv.psubs ∧ s'.srv.conns = (prep s).srv.conns ∧
-    (∀ j, j ≠ ((prep s).conn c).db → s'.srv.dbs.getD j [] = (prep s).srv.dbs.getD j []) ∧
-    s'.out = (if (s.conn c).closed then s.out else
-      (c, gatedReply (sig.apply args ((prep s).dbAt ((prep s).conn c).db)).2) :: s.out) :=
+    s' = (prep s).emitS c (.err (strBytes Msgs.BAD_COMMAND_IN_PUBSUB_MSG)) ∧
+    s'.srv = (prep s).srv ∧
+    s'.out = (if (s.conn c).closed then s.out else (c, .err (strBytes Msgs.BAD_COMMAND_IN_PUBSUB_MSG)) :: s.out) :=
   process_gated_frame mode c nameB args s sig hsig har htx hps hna hcr
+
+/-- `_run_command` itself, in any state: for a subscribed connection and a command outside the allow-list the reply is
+the context error and the state is returned as it is — whatever the arguments `raw` are (too few or too many, not
+convertible, keys missing, expired or of the wrong type), from a script or not, for regular, special and script
+commands alike -/
+theorem run_command_refuses_first (mode : Mode) (c : Nat) (sig : Sig) (raw : List Bytes) (fromScript : Bool) (s1 : Sys)
+    (hps : (s1.conn c).pubsub > 0) (hna : sig.name ∉ SigTable.pubsubAllowed) :
+    runCommand mode c sig raw fromScript s1 = (some (.err (strBytes Msgs.BAD_COMMAND_IN_PUBSUB_MSG)), s1) ∧
+    (∀ special, runWith special mode c sig raw fromScript s1 =
+      (some (.err (strBytes Msgs.BAD_COMMAND_IN_PUBSUB_MSG)), s1)) :=
+  ⟨runCommand_refused mode c sig raw fromScript (Sys.refuses_eq_true.2 ⟨hps, hna⟩),
+   fun special => runWith_refused special mode c sig raw fromScript (Sys.refuses_eq_true.2 ⟨hps, hna⟩)⟩
+
+/-- **The subscriber-mode check comes before the arguments** (repair of KF-2).  A request of a subscribed connection
+(outside MULTI, right number of arguments) for a command outside the allow-list: the reply is the context error, and the
+state is LITERALLY unchanged apart from what `_process_command` does before `_run_command` (clean-up of the closed
+sockets, clock refresh: `prep s`).  No argument error takes precedence, no missing-key short-cut (`LINDEX nokey 0`
+used to answer nil), no lazy expiry of the keys named by the request: `_run_command`, started in `prep s`, hands back
+`prep s` itself for ANY argument list. -/
+theorem subscriber_gate_before_arguments (mode : Mode) (c : Nat) (nameB : Bytes) (args : List Bytes) (s : Sys) (sig : Sig)
+    (hsig : lookupSig nameB = some sig) (har : sig.checkArity args.length = true) (htx : (s.conn c).tx = none)
+    (hps : (s.conn c).pubsub > 0) (hna : sig.name ∉ SigTable.pubsubAllowed) :
+    -- `_run_command` in the state after the prologue: the error, the state as it was, whatever the arguments
+    (∀ raw fromScript, runCommand mode c sig raw fromScript (prep s) =
+      (some (.err (strBytes Msgs.BAD_COMMAND_IN_PUBSUB_MSG)), prep s)) ∧
+    -- the whole request
+    processCommand mode c (nameB :: args) s =
+      ((), finish c ((prep s).emitS c (.err (strBytes Msgs.BAD_COMMAND_IN_PUBSUB_MSG)))) ∧
+    -- unless the model had already recorded a crash: the final state is `prep s` plus the reply, nothing else
+    (s.crashed = none →
+      (processCommand mode c (nameB :: args) s).2 = (prep s).emitS c (.err (strBytes Msgs.BAD_COMMAND_IN_PUBSUB_MSG)) ∧
+      (processCommand mode c (nameB :: args) s).2.srv.dbs = (prep s).srv.dbs ∧
+      (processCommand mode c (nameB :: args) s).2.out =
+        (if (s.conn c).closed then s.out else (c, .err (strBytes Msgs.BAD_COMMAND_IN_PUBSUB_MSG)) :: s.out)) := by
+  have hps' : ((prep s).conn c).pubsub > 0 := by rw [prep_pubsub]; exact hps
+  refine ⟨fun raw fs => (run_command_refuses_first mode c sig raw fs (prep s) hps' hna).1,
+    process_gated mode c nameB args s sig hsig har htx hps hna, fun hcr => ?_⟩
+  obtain ⟨h1, h2, h3⟩ := process_gated_frame mode c nameB args s sig hsig har htx hps hna hcr
+  exact ⟨h1, by rw [h2], h3⟩
 
 /-- PUBLISH itself is refused in subscriber mode, nothing is delivered -/
 theorem publish_refused_when_subscribed (mode : Mode) (c : Nat) (nameB ch msg : Bytes) (s : Sys)
@@ -316,5 +354,34 @@ example :
 
 example : (lookupSig (strBytes "SET")).any (fun sig => sig.checkArity 2 && !SigTable.pubsubAllowed.contains sig.name) = true ∧
     ((runHistory demo).conn 7).tx = none ∧ ((runHistory demo).conn 7).pubsub > 0 := by decide +kernel
+
+/-- 7 stores `k` with a deadline and subscribes; later (the deadline of `k` has passed) it tries commands whose
+arguments used to be looked at first -/
+def demoGate : List Ev :=
+  [.open 7,
+   .request {} 7 [strBytes "SET", [107], [118], strBytes "PX", strBytes "1"] [5] [],
+   .request {} 7 [strBytes "SUBSCRIBE", [1]] [6] []]
+
+/-- non-vacuity of `subscriber_gate_before_arguments`, and its content on a concrete history: in subscriber mode
+* `LINDEX nokey 0` (missing key: the `missing_return` short-cut used to answer nil) ⇒ the context error;
+* `INCRBY k x` (`x` is not an integer: the conversion error used to come first) ⇒ the context error;
+* `GET k` with `k` expired ⇒ the context error, and the expired entry is still stored (no lazy expiry): the
+  databases are exactly those before the request. -/
+example :
+    (lookupSig (strBytes "LINDEX")).any (fun sig => sig.checkArity 2 && !SigTable.pubsubAllowed.contains sig.name) = true ∧
+    ((runHistory demoGate).conn 7).tx = none ∧ ((runHistory demoGate).conn 7).pubsub > 0 ∧
+    (runHistory demoGate).crashed = none ∧
+    fps (stepEv (runHistory demoGate) (.request {} 7 [strBytes "LINDEX", strBytes "nokey", strBytes "0"] [20000] [])).out =
+      fps [(7, .err (strBytes Msgs.BAD_COMMAND_IN_PUBSUB_MSG))] ∧
+    fps (stepEv (runHistory demoGate) (.request {} 7 [strBytes "INCRBY", [107], strBytes "x"] [20000] [])).out =
+      fps [(7, .err (strBytes Msgs.BAD_COMMAND_IN_PUBSUB_MSG))] ∧
+    fps (stepEv (runHistory demoGate) (.request {} 7 [strBytes "GET", [107]] [20000] [])).out =
+      fps [(7, .err (strBytes Msgs.BAD_COMMAND_IN_PUBSUB_MSG))] ∧
+    (stepEv (runHistory demoGate) (.request {} 7 [strBytes "GET", [107]] [20000] [])).srv.time = 20000 ∧
+    ((stepEv (runHistory demoGate) (.request {} 7 [strBytes "GET", [107]] [20000] [])).srv.dbs.map
+        (·.map fun p => (p.1, p.2.expireat))) =
+      ((runHistory demoGate).srv.dbs.map (·.map fun p => (p.1, p.2.expireat))) ∧
+    ((runHistory demoGate).srv.dbs.map (·.map fun p => (p.1, p.2.expireat))).take 1 = [[([107], some 10005)]] := by
+  decide +kernel
 
 end FR.Props.C10s
